@@ -90,8 +90,13 @@ def accepted_user_metrics():
 
 def gen_pair(rng, dict_metric, style):
     if dict_metric:
-        p = rng.random()
         y = rng.choice([0, 1])
+        if rng.random() < 0.4:
+            # the same probability VALUES come back under the other labels / in the other key order: the loss depends on which label
+            # carries which probability, not on the sequence of values
+            p = rng.choice([0.25, 0.125, 0.75])
+            return (y, {1: 1 - p, 0: p}) if rng.random() < 0.5 else (y, {0: 1 - p, 1: p})
+        p = rng.random()
         return y, {0: 1 - p, 1: p}
     if style == "class":
         return rng.choice([0, 1, 2]), {"output": rng.choice([0, 1, 2])}
